@@ -9,13 +9,13 @@ BASE = 'cd /repo && /venv/bin/python -m pytest -ra -q -p no:cacheprovider --time
 
 # id -> (technique, level text, level note, design ref)
 P = {
- 'C01': ('abstract interpretation of the AST (finite scenario families over symbolic name tokens; nothing executed): SSH2_Kex.parse / constructors / accessors and the SSH-1 mask decoders (which read reaches which accessor), output() and build_struct (which list feeds which section / JSON list), the per-name renderer (every name gets its line); provenance / alias scan for in-place edits of parsed lists over the call graph',
+ 'C01': ('abstract interpretation of the AST (finite scenario families over symbolic name tokens; nothing executed): SSH2_Kex.parse / constructors / accessors and the SSH-1 mask decoders (which read reaches which accessor), output() and build_struct (which list feeds which section / JSON list), the per-name renderer (every name gets its line); provenance / alias scan for in-place edits of parsed lists over the call graph; interpretation of the printable-ASCII sanitiser (the only transformation between the banner line and the report)',
          'Decides the provenance clause: in both renderings each category shows exactly the parsed list for that category, unfiltered, in order (slot agreement in parse/constructor/getters; render table; identity-only transformations). Static, so it holds for every payload and role; byte-level splitting and the rendered text are not decided.',
          'Trusts ast; rule tables (category<->accessor) confirmed against RFC 4253 7.1; does not decide ReadBuf.read_list byte splitting.', '4/C01'),
  'C02': ('abstract interpretation of the per-name renderer (severity fold over every row shape x incoming status x presentation state), of output_algorithms and output() (status threading), of Policy.evaluate (verdict component); backward slices for option independence; CFG reachability of parse-free returns of audit(); symbolic byte budget for truncated messages',
          'Decides: the fold is max over GOOD<WARNING<FAILURE (9-row table extracted from the guards), the status is threaded through every category and returned unchanged, it has no dependence on output options, every exit of audit() not dominated by a successful parse returns CONNECTION_ERROR and renders no algorithm report, and the policy verdict maps to GOOD/FAILURE.',
          'Trusts ast and the hand-built CFG; tag text vs level correspondence is by shared loop variable only.', '4/C02'),
- 'C03': ('abstract interpretation of the text and JSON note lookups on a synthetic rating table (levels, unknown names, agreement of the views); backward slice for locality; alias / mutation inventory of the rating-table writers over all functions; per-thread registry and privacy of the table copy by interpretation (object identity on a synthetic table); loop-carried dependence on the CFG of the host-key probe',
+ 'C03': ('abstract interpretation of the text and JSON note lookups on a synthetic rating table (levels, unknown names, agreement of the views); backward slice for locality; alias / mutation inventory of the rating-table writers over all functions; per-thread registry and privacy of the table copy by interpretation (object identity on a synthetic table); loop-carried dependence on the CFG of the host-key probe; object-identity check of every container of the evaluated MASTER_DB (no row or note list shared between entries)',
          'Decides locality (notes depend only on category, name, table row), single table source and key normalisation agreement across text/JSON/lookup, unknown-never-good, and the complete inventory of writers of the rating table.',
          'Trusts the resolver (by-name over-approximation for untyped receivers) and the frozen writer table.', '4/C03'),
  'C04': ('abstract interpretation of post_process_findings and its nested helpers on an object model of the parsed message: decision table over role x strict-kex marker x ChaCha x CBC x ETM (warnings read from the resulting table), totality by crash detection on unknown names; who-may-call over the call graph; registry model',
@@ -27,16 +27,16 @@ P = {
  'C06': ('abstract interpretation of the policy constructor on hand-written policy files (the state the verdict is computed from is what the file specifies) and of Policy.evaluate (helper methods and the error recorder in place) over 6 policy states x ~90 peers x 4 flag combinations, compared with an executable statement of the documented matching rules (verdict, reported fields, record contents, pairing, monotonicity); call-graph freshness of the error accumulator',
          'Decides verdict<=>error pairing at every site, the per-field decision tables for exact/subset/larger-keys modes (direction of subset test, strict-kex exception, size orderings), error contents (expected/actual not crossed) and the syntactic form that implies monotonicity.',
          'Text of the rendered Errors block not decided.', '4/C06'),
- 'C07': ('inventory of long-lived mutable state + alias-tracked writer set reachable from the pool task (call graph); per-thread registry by abstract interpretation of get_db / thread_exit; typestate (acquire / release) on the worker CFG; copy-hook depth analysis',
+ 'C07': ('inventory of long-lived mutable state + alias-tracked writer set reachable from the pool task (call graph); per-thread registry by abstract interpretation of get_db / thread_exit; typestate (acquire / release) on the worker CFG; copy-hook depth analysis; class-level containers written through self / cls / Class receivers on the scan path',
          'Decides state confinement: every write reachable from a scan goes to objects created in the task or to the per-thread table keyed by thread id, the table is released on every exit of the pool task, and configuration/output objects are task-owned. Holds for all schedules because it is about which objects can be shared.',
          'Assumes CPython atomic dict item ops; byte equality of outputs not decided.', '4/C07'),
- 'C08': ("exception-escape analysis of the worker entry over the resolved call graph (incl. SystemExit); constant evaluation of the rank list; abstract interpretation of main()'s multi-target loop (status fold over all status triples, block structure of the printed sequence); reachable-flush rule over the call graph",
+ 'C08': ("exception-escape analysis of the worker entry over the resolved call graph (incl. SystemExit); constant evaluation of the rank list; abstract interpretation of main()'s multi-target loop (status fold over all status triples, block structure of the printed sequence); reachable-flush rule over the call graph; exceptions of the target-entry parser (explicit raises, int() of text that is not a digits-only regex group) must be handled where main() parses the entries",
          'Decides: nothing but a normal return can leave a worker task, every returnable status is ranked and the fold is max by rank, one print per future with well-formed array delimiters, JSON provenance of worker text.',
          'Trusts the partial-operation table and resolver; real stdout interleaving not decided.', '4/C08'),
  'C09': ('exception-escape fixed point over the call graph with a repo-specific partial-operation table; path-condition facts incl. conditional expressions and short-circuit operands (implied atoms) and a CFG must-analysis for non-emptiness; loop-bound classification; timeout finiteness; symbolic byte budget of read_packet; crashes proved by the host-key probe model on hostile measurements enter the escape analysis as sites',
          'Decides the crash clause structurally (which exception classes can escape audit() from peer-driven partial operations, with witness chains), probe isolation, timeout presence on every wait and bounds on peer-driven loops.',
          'Wall-clock and memory bounds not decided; partial-operation table is hand-confirmed.', '4/C09'),
- 'C10': ('abstract interpretation round trip of the KEXINIT and SSH-1 key messages on an object model (parse on read tokens -> object -> write: token by token, codec by codec); abstract interpretation of every primitive writer / reader (bytes, booleans, uint32, strings, name-lists, SSH-1 and SSH-2 mpints of both signs around +-2^k up to 8192 bits) and of both packet builders against the RFC 4251 / 4253 encodings on boundary families; linear-form reader model of read_packet per protocol version',
+ 'C10': ('abstract interpretation round trip of the KEXINIT and SSH-1 key messages on an object model (parse on read tokens -> object -> write: token by token, codec by codec); abstract interpretation of every primitive writer / reader (bytes, booleans, uint32, strings, name-lists, SSH-1 and SSH-2 mpints of both signs around +-2^k up to 8192 bits) and of both packet builders against the RFC 4251 / 4253 encodings on boundary families; linear-form reader model of read_packet per protocol version; abstract interpretation of SSH_Socket.recv on receive buffers with unread bytes (append-only)',
          'Decides field order/codec agreement of KEXINIT and SSH-1 key message writers vs parsers, primitive format pairs, word composition signedness of the mpint reader, and framing arithmetic for all payload lengths (periodic in 8).',
          'Value-level round trips are not claimed.', '4/C10'),
  'C11': ("abstract interpretation of the whole host-key probe (HostKeyTest.perform_test, no-exception path) over boundary sizes x key kinds x CA kinds: what lands in the rating table and the host-key record; CFG must-assignment of the key-exchange object's measurement fields; interpretation of KexDH.recv_reply per blob layout with the arguments the probe passes",
@@ -57,7 +57,7 @@ P = {
  'C16': ('regular-language inclusion on automata built from the regex AST (re._parser); abstract interpretation of Banner.parse on a family of identification lines (constant patterns applied with the re module) and of the printable-ASCII helpers; abstract interpretation of SSH_Socket.get_banner on scripted peers (TCP segments, split lines, close / timeout: which lines are tried, banner vs. header, nothing consumed behind the banner); product-pattern automata',
          'Decides acceptance: L(banner grammar) is included in L(RX_BANNER) over printable ASCII (with counter-example otherwise), both ASCII filters agree, header/banner separation, product table shape.',
          'Captured parts vs grammar parts not decided.', '4/C16'),
- 'C17': ('exhaustive enumeration of literal tables with a constant evaluator over the AST (cross-references, shapes, broken primitives), built-in policy sizes pushed through the host-key probe model',
+ 'C17': ('exhaustive enumeration of literal tables with a constant evaluator over the AST (cross-references, shapes, broken primitives), built-in policy sizes pushed through the host-key probe model; abstract interpretation of the Terrapin post-processing for the situation each built-in policy describes (no failure added)',
          'Decides the whole property: its quantifier is the tables as they stand in the tree, all of which are literals read from source: shape, cross-references, no policy admits a failure, broken primitives failed under every spelling.',
          'Trusts the frozen broken-primitive token table (confirmed row by row).', '4/C17'),
  'C18': ('abstract interpretation of main() (each targets-file entry -> the (host, port) its task receives), of output() / evaluate_policy / build_struct (target labels), of the argparse stores (option order); def-use provenance from the stored target to getaddrinfo / connect; ordering evaluation of port guards; sibling agreement of the two resolvers',
